@@ -9,6 +9,7 @@
 //	...dropidle...  a healthy plugin whose connection goes away while the runtime is idle; the process stays
 //	...stubborn...  a healthy plugin that does not exit when its connection is closed (syncfail behaves so, too)
 //	...cfgfail...   registers, then fails its configuration; does not exit on its own either
+//	...reidx...     a healthy plugin that registers as 90-renamed whatever its file is called
 //
 // Every probe returns one update, for the container "syncupd-<its file name>", from Synchronize and
 // reports the state it was given (counts, first and last ids, a hash of all ids in order).
@@ -151,13 +152,21 @@ func main() {
 		// nothing short of a kill removes this one
 		signal.Ignore(syscall.SIGTERM, syscall.SIGINT, syscall.SIGHUP)
 	}
-	st, err := stub.New(plugin{}, stub.WithOnClose(func() {
+	var extra []stub.Option
+	if strings.Contains(base, "reidx") {
+		// registers under another index and name than the file it was launched from
+		// (the stub refuses to override what the environment says, so the environment is cleared first)
+		os.Unsetenv("NRI_PLUGIN_IDX")
+		os.Unsetenv("NRI_PLUGIN_NAME")
+		extra = append(extra, stub.WithPluginIdx("90"), stub.WithPluginName("renamed"))
+	}
+	st, err := stub.New(plugin{}, append(extra, stub.WithOnClose(func() {
 		if staysAround() {
 			// ignores the loss of its connection: only a kill gets rid of it
 			time.Sleep(120 * time.Second)
 		}
 		os.Exit(0)
-	}))
+	}))...)
 	if err != nil {
 		appendLine("errors.log", base+": stub.New: "+err.Error())
 		os.Exit(9)
